@@ -107,8 +107,9 @@ def handle (op : String) (args : List String) (impl : String) : Verdict :=
             tag := "tof64" ++ (if x.scale == 0 then ":int" else if x.scale.natAbs ≥ 2 ^ 31 - 64 then ":beyond-i32" else if (x.scale.natAbs > 330) then ":extreme" else ":frac")
               -- premises of C14_toF64_negative_scale_tolerance, observed on this input under the f64 digit estimate
               ++ (if x.scale != 0 && x.int != 0 then
-                    (if F64.trimKeeps25 F64.digitCountF64 x.int.natAbs then "+keeps25" else "+keeps-fewer")
-                    ++ (if F64.digitCountF64 (x.int.natAbs.log2 + 1) == F64.digitCountInt (x.int.natAbs.log2 + 1) then "" else "+estimate-differs")
+                    (if F64.trimKeeps25 F64.digitCount x.int.natAbs then "+keeps25" else "+keeps-fewer")
+                    ++ (if F64.digitCountF64 (x.int.natAbs.log2 + 1) == F64.digitCount (x.int.natAbs.log2 + 1) then "" else "+hardware-estimate-differs")
+                    ++ (if F64.digitCount (x.int.natAbs.log2 + 1) == F64.digitCountInt (x.int.natAbs.log2 + 1) then "" else "+exact-estimate-differs")
                   else ""),
             trivial := x.int == 0 }
         | none => badInput "tof64 impl"
